@@ -24,4 +24,16 @@ theorem C03_fact_single_transactional_flush :
 (otherwise the plugin is told more than the store holds). FALSE at the pinned commit. -/
 theorem C03_fact_store_error_propagates : flushNowStoreErrPropagates = true := by decide
 
+/-- `connector.Service.WaitPersisted` — the durability barrier `StopAndWait` relies on before a stopped
+pipeline's connectors may be re-created — is exactly the UNBOUNDED `Persister.WaitPendingWrites` (no
+context / timeout variant), and that function waits on plain receives of the latest generation's
+`writeDone` and `callbacksDone` (model: `waitPersisted` is enabled only when the latest generation
+has finished writing and its callbacks have returned; there is no timeout event for it). With a
+bounded barrier a late commit of the stopped incarnation could overwrite a re-created connector and
+a crash would reopen it at the old position. -/
+theorem C03_fact_waitPersisted_is_unbounded_barrier :
+    serviceWaitPersistedCalls = ["s.persister.WaitPendingWrites"] ∧
+    waitPendingWritesReceives = ["<-st.writeDone", "<-st.callbacksDone"] ∧
+    waitPendingWritesUnbounded = true := by decide
+
 end Conduit.Facts.C03
